@@ -40,6 +40,7 @@ type UnitSpec struct {
 	ModelDef  cx       // for model
 	ModelPT   []string // model param types (Go type text)
 	Props     []string // properties served (informational)
+	Hint      string   // closure: the literal's natural name (variable it is assigned to, @Callee.argIndex, @return); binds the ordinal to that literal
 }
 
 func (u *UnitSpec) clauses(kind string) []*Clause {
@@ -60,7 +61,7 @@ type ContractSet struct {
 
 var (
 	reHeaderFunc    = regexp.MustCompile(`^func\s+(?:\(\s*(\w+)\s+\*?([\w]+)(?:\[[^\]]*\])?\s*\)\s*)?(\w+)\s*\(([^)]*)\)\s*(?:\(([^)]*)\))?\s*$`)
-	reHeaderClosure = regexp.MustCompile(`^closure\s+([\w.]+#[\d.]+)\s*\(([^)]*)\)\s*(?:\(([^)]*)\))?\s*$`)
+	reHeaderClosure = regexp.MustCompile(`^closure\s+([\w.]+#[\d.]+)(?:\s+as\s+(@?[\w.~]+))?\s*\(([^)]*)\)\s*(?:\(([^)]*)\))?\s*$`)
 	reHeaderTC      = regexp.MustCompile(`^type-contract\s+(\S+)\s*\(([^)]*)\)\s*(?:\(([^)]*)\))?\s*$`)
 	reHeaderExtern  = regexp.MustCompile(`^extern\s+(\(\*?[\w./]+\)\.\w+|[\w./]+)\s*\(([^)]*)\)\s*(?:\(([^)]*)\))?\s*$`)
 	reHeaderModel   = regexp.MustCompile(`^(?:model|pred)\s+(\w+)\s*\(([^)]*)\)\s*:=\s*(.*)$`)
@@ -175,8 +176,9 @@ func parseContractFile(path string, cs *ContractSet) error {
 				return err
 			}
 			cur = newUnit("closure", m[1])
-			cur.Params = splitNames(m[2])
-			cur.Results = splitNames(m[3])
+			cur.Hint = m[2]
+			cur.Params = splitNames(m[3])
+			cur.Results = splitNames(m[4])
 			if err := add(cur); err != nil {
 				return err
 			}
